@@ -3,17 +3,19 @@ C11 — compiling and solving never change what a model means.
 Property theorems about `Model/Recompile.lean`.
 -/
 import SageoptModel.Model.Recompile
+import SageoptModel.Lemmas.CompileSem
+import SageoptModel.Lemmas.RecompileHistory
 
 namespace Sageopt.Props.C11
-open Sageopt Sageopt.Compile
+open Sageopt Sageopt.Compile Sageopt.Solvers
 
 /-- a compilation is the one-shot compiler of C07 applied to the objects' current state … -/
 theorem compileStep_output (cons : List Con) (dummy : Nat) :
     (compileStep cons dummy).map (fun r => (r.1, r.2.1)) = compileBlocks cons dummy := by
   unfold compileStep
   cases h : compileBlocks cons dummy with
-  | error m => simp [bind, Except.bind, Except.map, h]
-  | ok p => obtain ⟨rows, K⟩ := p; simp [bind, Except.bind, Except.map, pure, Except.pure, h]
+  | error m => simp [bind, Except.bind, Except.map]
+  | ok p => obtain ⟨rows, K⟩ := p; simp [bind, Except.bind, Except.map, pure, Except.pure]
 
 /-- … and leaves that state exactly as it was -/
 theorem compileStep_state (cons : List Con) (dummy : Nat) (rows : List CRow) (K : List Cone) (post : List Con)
@@ -31,5 +33,154 @@ theorem recompile_same (cons : List Con) (dummy : Nat) (rows : List CRow) (K : L
     (h : compileStep cons dummy = .ok (rows, K, post)) : compileStep post dummy = .ok (rows, K, post) := by
   have := compileStep_state cons dummy rows K post h
   subst this; exact h
+
+/-- all indices of every compile operation are valid positions of the pool, without repetition -/
+def ValidOps (n : Nat) (ops : List Op) : Prop :=
+  ∀ op ∈ ops, match op with
+    | .compile idxs => (∀ i ∈ idxs, i < n) ∧ idxs.Nodup
+    | .unrelated _ => True
+
+/-- writing the unchanged post-state back changes nothing -/
+theorem writeBack_pick (cons : List Con) (idxs : List Nat) (h : ∀ i ∈ idxs, i < cons.length) :
+    writeBack cons idxs (pick cons idxs) = cons :=
+  rc_writeBack_pick cons idxs h
+
+theorem validOps_tail {n : Nat} {op : Op} {ops : List Op} (hv : ValidOps n (op :: ops)) :
+    ValidOps n ops := fun o ho => hv o (List.mem_cons_of_mem _ ho)
+
+/-- one step of a valid history keeps the pool -/
+theorem step_cons (w : World) (op : Op) (ops : List Op) (hv : ValidOps w.cons.length (op :: ops)) :
+    (step w op).1.cons = w.cons := by
+  have h := hv op (by simp)
+  cases op with
+  | unrelated k => rfl
+  | compile idxs => exact rc_step_cons w (.compile idxs) h
+
+/-- STATE INVARIANT over all finite histories: whatever is compiled, in whatever order, interleaved with
+    the creation of any number of unrelated Variables, the constraint objects keep their state -/
+theorem history_state_invariant (w : World) (ops : List Op) (hv : ValidOps w.cons.length ops) :
+    (run w ops).1.cons = w.cons := by
+  induction ops generalizing w with
+  | nil => rfl
+  | cons op ops ih =>
+    rw [rc_run_cons]
+    have h1 : (step w op).1.cons = w.cons := step_cons w op ops hv
+    have h2 := ih (step w op).1 (by rw [h1]; exact validOps_tail hv)
+    simp only
+    rw [h2, h1]
+
+/-- the dummy column (id of the most recently created scalar variable; it moves whenever unrelated
+    Variables are created) only carries zero entries: for any two dummies the cones are identical and the
+    compiled rows have the same value under every assignment -/
+theorem unrelated_vars_irrelevant (cons : List Con) (d d' : Nat) (rows : List CRow) (K : List Cone)
+    (h : compileBlocks cons d = .ok (rows, K)) :
+    ∃ rows', compileBlocks cons d' = .ok (rows', K) ∧
+      ∀ σ : Nat → ℝ, rows'.map (crowVal σ) = rows.map (crowVal σ) := by
+  obtain ⟨rows', h', hR⟩ := rc_compileBlocks cons d d' rows K h
+  exact ⟨rows', h', fun σ => rc_forall₂_map hR σ⟩
+
+/-- every compilation that occurs anywhere in any history returns the compilation of the same objects
+    in their INITIAL state (a freshly built copy), up to the dummy column: same cones, rows equal under
+    every assignment; and a compilation fails in the history iff it fails on the fresh copy -/
+theorem history_outputs_fresh (w : World) (ops : List Op) (hv : ValidOps w.cons.length ops)
+    (k : Nat) (idxs : List Nat) (hk : ops[k]? = some (.compile idxs)) :
+    ∃ out, (run w ops).2[k]? = some (some out) ∧
+      (match out, compileBlocks (pick w.cons idxs) 0 with
+       | .ok (rows, K), .ok (rows0, K0) => K = K0 ∧ ∀ σ : Nat → ℝ, rows.map (crowVal σ) = rows0.map (crowVal σ)
+       | .error _, .error _ => True
+       | _, _ => False) := by
+  induction ops generalizing w k with
+  | nil => simp at hk
+  | cons op ops ih =>
+    rw [rc_run_cons]
+    have h1 : (step w op).1.cons = w.cons := step_cons w op ops hv
+    cases k with
+    | zero =>
+      simp only [List.getElem?_cons_zero, Option.some.injEq] at hk
+      subst hk
+      simp only [List.getElem?_cons_zero]
+      rw [rc_step_out]
+      refine ⟨_, rfl, ?_⟩
+      rcases rc_out_cases (pick w.cons idxs) (w.counter - 1) 0 with
+        ⟨rows, rows', K, h, h', hσ⟩ | ⟨m, m', h, h'⟩
+      · rw [h, h']; exact ⟨rfl, hσ⟩
+      · rw [h, h']; trivial
+    | succ k =>
+      simp only [List.getElem?_cons_succ] at hk ⊢
+      have h2 := ih (step w op).1 (by rw [h1]; exact validOps_tail hv) k hk
+      rw [h1] at h2
+      exact h2
+
+/-- models that mix Variables of different index generations are rejected -/
+theorem generation_rejected (cols : List Nat) (vars : List VarInfo)
+    (h : ∃ v ∈ vars, ∃ w ∈ vars, v.gen ≠ w.gen) : ∃ m, variableMap cols vars = .error m := by
+  obtain ⟨v, hv, u, hu, hne⟩ := h
+  cases vars with
+  | nil => cases hv
+  | cons v0 vs =>
+    unfold variableMap
+    simp only
+    have hany : (v0 :: vs).any (fun x => x.gen != v0.gen) = true := by
+      rw [List.any_eq_true]
+      by_cases h1 : v.gen = v0.gen
+      · refine ⟨u, hu, ?_⟩
+        simp only [bne_iff_ne, ne_eq]
+        rw [← h1]
+        exact fun h => hne h.symm
+      · exact ⟨v, hv, by simpa using h1⟩
+    rw [if_pos hany]
+    exact ⟨_, rfl⟩
+
+/-! ### non-vacuity: a concrete pool and history -/
+
+/-- pool: `|x0 - 2| - x1 ≤ 0` (elementwise `≤` row with an `abs` atom, epigraph variable 7) and
+    `x0 + 2·x1 - 3 == 0` (affine `==` row) -/
+def exPool : List Con :=
+  [ .elem false [⟨[(.nl ⟨.abs, [⟨[(0, 1)], -2⟩], 7⟩, 1), (.var 1, -1)], 0⟩],
+    .elem true [⟨[(.var 0, 1), (.var 1, 2)], -3⟩] ]
+
+def exOps : List Op := [.compile [0, 1], .unrelated 3, .compile [1, 0], .compile [0]]
+
+def exWorld : World := ⟨exPool, 8⟩
+
+def outOk : Option (M (List CRow × List Cone)) → Bool
+  | some (.ok _) => true
+  | none => true
+  | _ => false
+
+/-- the hypothesis `ValidOps` of the history theorems is satisfiable -/
+example : ValidOps exWorld.cons.length exOps := by
+  intro op hop
+  simp [exOps] at hop
+  rcases hop with rfl | rfl | rfl | rfl <;> simp [exWorld, exPool]
+
+/-- every compilation of the history succeeds (the `unrelated` step has no output) -/
+example : (run exWorld exOps).2.map outOk = [true, true, true, true] := by with_unfolding_all decide
+
+/-- the first and the last compilation, explicitly -/
+example : (run exWorld exOps).2[0]? = some (some (.ok
+    ([⟨[(1, 1), (7, -1)], 0, false⟩, ⟨[(0, -1), (1, -2)], 3, false⟩,
+      ⟨[(7, 1), (0, 1)], -2, false⟩, ⟨[(7, 1), (0, -1)], 2, false⟩],
+     [⟨.pos, 1⟩, ⟨.zero, 1⟩, ⟨.pos, 2⟩]))) := by with_unfolding_all decide
+
+example : (run exWorld exOps).2[3]? = some (some (.ok
+    ([⟨[(1, 1), (7, -1)], 0, false⟩, ⟨[(7, 1), (0, 1)], -2, false⟩, ⟨[(7, 1), (0, -1)], 2, false⟩],
+     [⟨.pos, 1⟩, ⟨.pos, 2⟩]))) := by with_unfolding_all decide
+
+/-- the instances of the history theorems for this history -/
+example : (run exWorld exOps).1.cons = exPool :=
+  history_state_invariant exWorld exOps (by
+    intro op hop
+    simp [exOps] at hop
+    rcases hop with rfl | rfl | rfl | rfl <;> simp [exWorld, exPool])
+
+/-- `unrelated_vars_irrelevant` is not a triviality: the compiled rows of a constant row DO depend on
+    the dummy (the explicit zero entry moves), only their values do not -/
+example : compileBlocks [.elem false [⟨[], -1⟩]] 5 = .ok ([⟨[(5, 0)], 1, false⟩], [⟨.pos, 1⟩]) := by with_unfolding_all decide
+example : compileBlocks [.elem false [⟨[], -1⟩]] 9 = .ok ([⟨[(9, 0)], 1, false⟩], [⟨.pos, 1⟩]) := by with_unfolding_all decide
+
+/-- `generation_rejected` is not vacuous -/
+example : ∃ m, variableMap [0, 1] [⟨"x", [0], 0⟩, ⟨"y", [1], 1⟩] = .error m :=
+  generation_rejected _ _ ⟨_, List.mem_cons_self, _, List.mem_cons_of_mem _ List.mem_cons_self, by decide⟩
 
 end Sageopt.Props.C11
